@@ -1,0 +1,7 @@
+//go:build !verif
+
+package rpc
+
+func (s *channelState) verifDirty() int64 { return 0 }
+
+func (s *serverChannelState) verifDirty() int64 { return 0 }
